@@ -10,11 +10,13 @@ import (
 	"os"
 	"testing"
 
+	"github.com/gopacket/gopacket"
 	"github.com/gopacket/gopacket/tcpassembly"
 	"github.com/gopacket/gopacket/tcpassembly/tcpreader"
 
 	"verif/sim"
 	"verif/sim/bubble"
+	"verif/sim/tcpsim"
 )
 
 type elem struct {
@@ -25,9 +27,48 @@ type elem struct {
 	off      int
 }
 
-func simC20(c *sim.Ctx) {
+func simC20(c *sim.Ctx)    { runC20(c, false) }
+func simC20asm(c *sim.Ctx) { runC20(c, true) }
+
+// teeStream sits between the real assembler and the ReaderStream and records
+// what is delivered, so the read model works on the assembler's own batches.
+type teeStream struct {
+	r        *tcpreader.ReaderStream
+	onBatch  func([]tcpassembly.Reassembly)
+	onFinish func()
+}
+
+func (t *teeStream) Reassembled(rs []tcpassembly.Reassembly) { t.onBatch(rs); t.r.Reassembled(rs) }
+func (t *teeStream) ReassemblyComplete()                     { t.onFinish(); t.r.ReassemblyComplete() }
+
+type discard struct{}
+
+func (discard) Reassembled([]tcpassembly.Reassembly) {}
+func (discard) ReassemblyComplete()                  {}
+
+type factory struct {
+	first tcpassembly.Stream
+	n     int
+}
+
+func (f *factory) New(a, b gopacket.Flow) tcpassembly.Stream {
+	f.n++
+	if f.n == 1 {
+		return f.first
+	}
+	return discard{} // late duplicates after the close: not the stream under test
+}
+
+func runC20(c *sim.Ctx, real bool) {
 	loss := c.Chance(500)
 	nb := c.Weighted(1, 3, 3, 2, 1)
+	if real {
+		nb = 0
+	}
+	var plan *tcpsim.Plan
+	if real {
+		plan = tcpsim.Generate(c, tcpsim.GenCfg{MaxConns: 1, AllowRST: true, AllowNoEnd: true, Short: true})
+	}
 	var batches [][]tcpassembly.Reassembly
 	var elems []*elem
 	total := 0
@@ -92,6 +133,58 @@ func simC20(c *sim.Ctx) {
 		started := 0 // batches whose Reassembled call has begun
 		completed := false
 		asmStep := 0
+		// the assembler side as a list of steps
+		var asmSteps []func()
+		for i := range batches {
+			i := i
+			asmSteps = append(asmSteps, func() {
+				started = i + 1
+				r.Reassembled(batches[i])
+				// the assembler reuses the memory of a batch once the call returns
+				for _, ra := range batches[i] {
+					for k := range ra.Bytes {
+						ra.Bytes[k] = 0xEE
+					}
+				}
+			})
+		}
+		if !real {
+			asmSteps = append(asmSteps, func() { completed = true; r.ReassemblyComplete() })
+		} else {
+			// the real tcpassembly.Assembler, fed by the C10 network, delivers into the reader
+			tee := &teeStream{r: &r}
+			tee.onBatch = func(rs []tcpassembly.Reassembly) {
+				for _, ra := range rs {
+					elems = append(elems, &elem{skip: ra.Skip, data: append([]byte(nil), ra.Bytes...), batch: started})
+					total += len(ra.Bytes)
+				}
+				started++
+			}
+			tee.onFinish = func() { completed = true }
+			a := tcpassembly.NewAssembler(tcpassembly.NewStreamPool(&factory{first: tee}))
+			a.MaxBufferedPagesPerConnection, a.MaxBufferedPagesTotal = plan.PerConnLimit, plan.TotalLimit
+			for i := range plan.Events {
+				ev := plan.Events[i]
+				switch ev.K {
+				case tcpsim.EvPkt:
+					if ev.P.Dir != 0 {
+						continue
+					}
+					asmSteps = append(asmSteps, func() {
+						t, _ := plan.TCP(ev.P)
+						a.AssembleWithTimestamp(plan.Dirs[0].Net, t, tcpsim.T(ev.At))
+					})
+				case tcpsim.EvFlushT:
+					asmSteps = append(asmSteps, func() {
+						a.FlushWithOptions(tcpassembly.FlushOptions{T: tcpsim.T(ev.At - ev.Age)})
+					})
+				case tcpsim.EvFlushAll:
+					asmSteps = append(asmSteps, func() { a.FlushAll() })
+				}
+			}
+			c.Probe("real_assembler_run")
+		}
+		asmAll := false
 		closedByConsumer := false
 		cur := 0 // index of the element the reader is in
 		var readLog bytes.Buffer
@@ -190,9 +283,9 @@ func simC20(c *sim.Ctx) {
 		conSteps := 0
 		conDone := false
 		closes := 0
-		for steps := 0; steps < 600; steps++ {
+		for steps := 0; steps < 600+12*len(asmSteps); steps++ {
 			b.Settle()
-			asmCan := (asm.AtGate() && !completed) || asm.Yielded()
+			asmCan := (asm.AtGate() && !asmAll) || asm.Yielded()
 			conCan := (con.AtGate() && !conDone) || con.Yielded()
 			if !asmCan && !conCan {
 				break
@@ -209,25 +302,11 @@ func simC20(c *sim.Ctx) {
 				continue
 			}
 			if pickAsm {
-				if asmStep < len(batches) {
-					i := asmStep
-					asmStep++
-					c.Ev("deliver_batch", int64(i), int64(len(batches[i])))
-					started = i + 1
-					b.Step(asm, func() {
-						r.Reassembled(batches[i])
-						// the assembler reuses the memory of a batch once the call returns
-						for _, ra := range batches[i] {
-							for k := range ra.Bytes {
-								ra.Bytes[k] = 0xEE
-							}
-						}
-					})
-				} else {
-					c.Ev("complete")
-					completed = true
-					b.Step(asm, func() { r.ReassemblyComplete() })
-				}
+				i := asmStep
+				asmStep++
+				asmAll = asmStep == len(asmSteps)
+				c.Ev("assembler_step", int64(i))
+				b.Step(asm, asmSteps[i])
 				continue
 			}
 			// consumer step
@@ -235,6 +314,17 @@ func simC20(c *sim.Ctx) {
 				c.Ev("close")
 				closes++
 				closedByConsumer = true
+				if started > 0 && !completed {
+					all := true
+					for _, e := range elems {
+						all = all && e.off == len(e.data)
+					}
+					if all {
+						c.Probe("closed_between_batches") // everything delivered so far was read, more is to come
+					} else {
+						c.Probe("closed_inside_a_batch")
+					}
+				}
 				b.Step(con, func() {
 					if err := r.Close(); err != nil {
 						con.Fail("close", "error", "Close", "Close returned %v", err)
@@ -279,8 +369,8 @@ func simC20(c *sim.Ctx) {
 			}
 		}
 		// both sides must have run to completion
-		if !completed || !asm.AtGate() {
-			c.Fail("liveness", "assembler-wedged", "ReaderStream", "the assembler side is stuck (batch %d of %d delivered, completion %v) although the consumer %s", asmStep, len(batches), completed, consumerState(closedByConsumer, con.AtGate()))
+		if !completed || !asmAll || !asm.AtGate() {
+			c.Fail("liveness", "assembler-wedged", "ReaderStream", "the assembler side is stuck (step %d of %d, completion %v) although the consumer %s", asmStep, len(asmSteps), completed, consumerState(closedByConsumer, con.AtGate()))
 		}
 		if !con.AtGate() {
 			c.Fail("liveness", "consumer-wedged", "ReaderStream", "the consumer is stuck in Read/Close after the stream completed")
@@ -297,9 +387,7 @@ func simC20(c *sim.Ctx) {
 			c.Probe("read_to_eof")
 		} else {
 			c.Probe("closed_early")
-			if started > 0 && started < len(batches)+0 {
-				c.Probe("closed_between_batches")
-			}
+
 		}
 	})
 }
@@ -321,7 +409,7 @@ func b2i(b bool) int64 {
 	return 0
 }
 
-var sims = map[string]sim.SimFunc{"c20": simC20}
+var sims = map[string]sim.SimFunc{"c20": simC20, "c20asm": simC20asm}
 
 func TestChild(t *testing.T) {
 	bubble.T = t
